@@ -332,7 +332,7 @@ type scen struct {
 	n       *node
 	ids     []string
 	lib     string
-	blocks  map[string]*mblock // by hash
+	blocks  map[string]*mblock // by content (bkey)
 	order   []*mblock
 	log     []string
 	past    int64 // next unused slot for blocks with past timestamps
@@ -390,11 +390,20 @@ func (s *scen) slotFor(k kind) int64 {
 	return s.past
 }
 
+// bkey identifies a block by its content, not by the identifier it carries (Block.Hash is whatever the sender says).
+func bkey(b *types.Block) string {
+	return string(c09lib.SignedMessage(b.Header)) + "|" + string(b.Header.Sign)
+}
+
 func (s *scen) make(name string, parent *mblock, k kind) *mblock {
 	b := s.e.w.build(s.e.rng, name, parent, k, s.e.iv, s.slotFor(k), s.ids)
-	s.blocks[string(b.blk.BlockHash())] = b
-	s.order = append(s.order, b)
+	s.register(b)
 	return b
+}
+
+func (s *scen) register(b *mblock) {
+	s.blocks[bkey(b.blk)] = b
+	s.order = append(s.order, b)
 }
 
 // legit: the property's condition on an offered block, from the record taken at its arrival.
@@ -422,7 +431,7 @@ func (s *scen) offer(b *mblock) {
 // check: the property on the node as it is now.
 func (s *scen) check() {
 	for _, mb := range s.n.mainChain() {
-		b, ok := s.blocks[string(mb.BlockHash())]
+		b, ok := s.blocks[bkey(mb)]
 		if !ok {
 			s.fail("a block that was never offered is on the main chain", map[string]interface{}{"no": mb.BlockNo()})
 			continue
@@ -577,6 +586,60 @@ func (e *env) orphanFirst() {
 	s.finish(expect)
 }
 
+// carriedHash: blocks that carry the identifier of ANOTHER block (a received block's Hash field is what the sender says).
+// The signature must be checked for every presented header, whatever was presented under that identifier before.
+func (e *env) carriedHash() {
+	s := e.newScen("carried-hash")
+	expect := map[*mblock]bool{}
+	g := s.genesis()
+	best := g
+	if e.rng.Chance(1, 2) {
+		b := s.make("a1", g, "legit")
+		expect[b] = true
+		s.offer(b)
+		if b.everMain {
+			best = b
+		}
+	}
+	forge := func(name string, parent *mblock, hash []byte) *mblock {
+		// the entitled producer's key in the header, no signature of that producer
+		f := s.e.w.build(s.e.rng, name, parent, []kind{"garbage-sig", "other-key", "other-header"}[e.rng.Intn(3)], s.e.iv, s.slotFor("legit"), s.ids)
+		f.blk.Hash = append([]byte{}, hash...)
+		f.kind = "forged-under-carried-hash"
+		s.register(f)
+		return f
+	}
+	switch e.rng.Intn(4) {
+	case 0:
+		// an outsider's own validly signed child of the best block (refused: not a producer), then the forgery under its identifier
+		o := s.make("o", best, "outsider")
+		s.offer(o)
+		s.offer(forge("f", best, o.blk.Hash))
+	case 1:
+		// the outsider's block is an orphan (parked with only the signature checked), then the forgery under its identifier
+		p := s.make("p", best, "legit") // never offered
+		o := s.make("o", p, "outsider")
+		s.offer(o)
+		s.offer(forge("f", best, o.blk.Hash))
+	case 2:
+		// reverse order: the forgery carrying the genuine block's identifier first, then the genuine block
+		gen := s.make("g1", best, "legit")
+		s.offer(forge("f", best, gen.blk.Hash))
+		expect[gen] = true
+		s.offer(gen)
+	default:
+		// genuine block accepted, then a forgery at the next height carrying the genuine block's identifier... and one on a fork
+		gen := s.make("g1", best, "legit")
+		expect[gen] = true
+		s.offer(gen)
+		if gen.everMain {
+			s.offer(forge("f", gen, gen.blk.Hash))
+		}
+		s.offer(forge("f2", best, gen.blk.Hash))
+	}
+	s.finish(expect)
+}
+
 func main() {
 	zerolog.SetGlobalLevel(zerolog.Disabled)
 	run := vh.Start("c09chain", "an `accept` op is non-trivial always: the block was offered to a real chain service; distinct by (op, answer)")
@@ -615,6 +678,9 @@ func main() {
 			}
 			for i := 0; i < run.Pick(30, 90); i++ {
 				e.orphanFirst()
+			}
+			for i := 0; i < run.Pick(30, 90); i++ {
+				e.carriedHash()
 			}
 		}
 	}
